@@ -1,7 +1,7 @@
 #!/usr/bin/env python3
 """setup_cmd: warm the build cache - compile every (driver, variant) pair the QUICK tier needs against the current /repo/include.
 Checks still rebuild whenever the library headers, the harness or the flags change (content-hashed cache)."""
-import os, sys, time, importlib.util
+import os, sys, time, importlib.util, importlib.machinery
 from concurrent.futures import ThreadPoolExecutor
 V = os.path.dirname(os.path.dirname(os.path.abspath(__file__)))
 sys.path.insert(0, V)
